@@ -376,6 +376,20 @@ fn check_text(origin: &str, text: &str, max_diag_lines: usize, out: &mut Partial
             (Err(_), Ok(_)) => Some("rejected-by-preload-only"),
             (Ok(_), Err(_)) => Some("rejected-by-streaming-only"),
         };
+        // The streaming reader is known to skip timing-prefixed lines altogether. So that this
+        // does not hide what the preload reader makes of such a line, its reading is also compared
+        // with the streaming reader's reading of the SAME line without the prefix.
+        let kind = match kind {
+            Some("not-read-by-streaming") if form(line) == "timing-prefix" => {
+                let body = line.trim_start();
+                let body = body.split_once(char::is_whitespace).map(|(_, b)| b.trim_start()).unwrap_or("");
+                match (&lp, &streaming(body)) {
+                    (Ok(a), Ok(b)) if !b.is_empty() && !same_seq(a, b) => Some("body-read-differently-by-preload"),
+                    _ => kind,
+                }
+            }
+            k => k,
+        };
         match kind {
             None => kept.push(line),
             Some(k) => {
